@@ -35,7 +35,8 @@ REQUIRED = ["error_leaves_flow_unchanged", "success_equals_reference", "unknown_
 RULE = (
     "case = (initial flow: http with/without response, with Host header / trailers / content-type variants, pristine or "
     "already modified, or tcp) x (edit document: 0-4 valid request items, 0-4 valid response items, marked/comment, and "
-    "0-2 invalid or debatable items -- unknown key, malformed port/code, malformed header/trailer list, non-string content, "
+    "0-2 invalid, debatable or exotic-but-parseable items (raw JSON literals 1e999/Infinity/NaN, 10**400, floats, booleans, nested "
+    "containers, very long / astral / lone-surrogate strings in every typed field) -- unknown key, malformed port/code, malformed header/trailer list, non-string content, "
     "non-hostname host, unencodable reason, sub-document not an object, response edit on a flow without response -- at a "
     "random position); distinct = distinct (flow kind, already-modified, classes of invalid items, number of valid items "
     "applied before the first invalid one (0/1/2+), answer class); non-trivial = an invalid item preceded by at least one "
@@ -99,6 +100,70 @@ NON_API_CLASSES = {
 }
 
 
+class Raw:
+    """A JSON literal spliced verbatim into the request body (1e999, Infinity, NaN: json.dumps cannot emit all of them)."""
+
+    def __init__(self, text):
+        self.text = text
+
+    def __repr__(self):
+        return f"Raw({self.text})"
+
+
+def dumps(o) -> str:
+    """Own serializer: the body is sent as raw text so that exotic-but-parseable literals survive."""
+    if isinstance(o, Raw):
+        return o.text
+    if isinstance(o, dict):
+        return "{" + ", ".join(json.dumps(str(k)) + ": " + dumps(v) for k, v in o.items()) + "}"
+    if isinstance(o, (list, tuple)):
+        return "[" + ", ".join(dumps(v) for v in o) + "]"
+    return json.dumps(o, allow_nan=True)  # ensure_ascii: lone surrogates travel as \udXXX escapes
+
+
+# exotic-but-parseable values (kind, value); Python's json.loads accepts every one of them
+EXOTIC = [
+    ("overflow-number", Raw("1e999")),
+    ("overflow-number", Raw("-1e999")),
+    ("overflow-number", Raw("Infinity")),
+    ("overflow-number", Raw("-Infinity")),
+    ("overflow-number", Raw("1E+400")),
+    ("nan", Raw("NaN")),
+    ("huge-int", 10**400),
+    ("huge-int", -(10**400)),
+    ("huge-int", Raw("1" + "0" * 5000)),
+    ("float", 80.5),
+    ("float", Raw("1e3")),
+    ("float", Raw("-0.0")),
+    ("float", Raw("1e-999")),
+    ("bool", True),
+    ("bool", False),
+    ("nested", [[1]]),
+    ("nested", [[[]], {}]),
+    ("nested", {"a": {"b": []}}),
+    ("nested", {"port": 1}),
+    ("long-string", "9" * 5000),
+    ("long-string", "x" * 60000),
+    ("astral-string", "\U0001F600 \U00010348"),
+    ("surrogate-string", "a\ud800b"),
+    ("surrogate-string", "\udc80"),
+    ("surrogate-string", "\udbff\udbff"),
+]
+EXOTIC_KEYS = {
+    "request": ["port", "port", "port", "method", "scheme", "host", "path", "http_version", "content", "headers", "trailers"],
+    "response": ["code", "code", "code", "reason", "http_version", "content", "headers", "trailers"],
+    "top": ["marked", "comment"],
+}
+
+
+def exotic_item(r, section):
+    key = r.choice(EXOTIC_KEYS[section])
+    kind, v = r.choice(EXOTIC)
+    if key in ("headers", "trailers"):
+        v = r.choice([[["a", v]], [[v, "b"]], [["ok", "v"], v], v, [["ok", "v"], ["a", v]]])
+    return f"exotic-{kind}", key, v
+
+
 def gen_headers(r, response=False):
     names = ["Host", "host", "X-A", "x-a", "Content-Type", "content-length", "Cookie", "Accept"]
     out = []
@@ -160,24 +225,35 @@ def gen_doc(r, kind):
         top.append(["comment", r.choice(["", "hi", "ünï"])])
     r.shuffle(top)
     classes = {}
-    n_bad = r.choices([0, 1, 2], [15, 65, 20])[0]
+    n_bad = r.choices([0, 1, 2], [12, 60, 28])[0]
     for _ in range(n_bad):
         where = r.choices(["request", "response", "top", "subdoc"], [45, 35, 12, 8])[0]
-        debatable = r.random() < 0.15
+        flavour = r.choices(["invalid", "debatable", "exotic"], [55, 12, 33])[0]
         if where in ("request", "response"):
             sec = next((t for t in top if t[0] == where and isinstance(t[1], list)), None)
             if sec is None:
                 sec = [where, []]
                 top.insert(r.randint(0, len(top)), sec)
-            table = (DEBATABLE_REQUEST if debatable else INVALID_REQUEST) if where == "request" else (DEBATABLE_RESPONSE if debatable else INVALID_RESPONSE)
-            cls, key, values = r.choice(table)
+            if flavour == "exotic":
+                cls, key, value = exotic_item(r, where)
+            else:
+                debatable = flavour == "debatable"
+                table = (DEBATABLE_REQUEST if debatable else INVALID_REQUEST) if where == "request" else (DEBATABLE_RESPONSE if debatable else INVALID_RESPONSE)
+                cls, key, values = r.choice(table)
+                value = r.choice(values)
             items = [it for it in sec[1] if it[0] != key]
-            items.insert(r.randint(0, len(items)), (key, r.choice(values)))
+            # half of the time last (everything valid is applied before it), else anywhere
+            items.insert(len(items) if r.random() < 0.5 else r.randint(0, len(items)), (key, value))
             sec[1] = items
             classes[(where, key)] = cls
+        elif where == "top" and flavour == "exotic":
+            cls, key, value = exotic_item(r, "top")
+            top = [t for t in top if t[0] != key]
+            top.insert(len(top) if r.random() < 0.5 else r.randint(0, len(top)), [key, value])
+            classes[("top", key)] = cls
         elif where == "top":
             if not any(t[0] == "foo" for t in top):
-                top.insert(r.randint(0, len(top)), ["foo", r.choice([42, {"a": 1}, None])])
+                top.insert(r.randint(0, len(top)), ["foo", r.choice([42, {"a": 1}, None, Raw("1e999")])])
                 classes[("top", "foo")] = "unknown-key"
         else:
             name = r.choice(["request", "response"])
@@ -288,7 +364,9 @@ async def amain(ctx):
                 headers = ch + xh + [("Cookie", "; ".join(f"{k}={v}" for k, v in cc + xc)), ("Content-Type", "application/json")]
                 before_state = strip(f.get_state())
                 before_snap = ref.snapshot(f)
-                body = json.dumps(doc).encode()
+                body_text = dumps(doc)
+                body = body_text.encode("ascii")
+                doc = json.loads(body_text)  # the document as any stdlib JSON reader sees it (Infinity/NaN floats, big ints)
                 try:
                     resp = await rig.request("PUT", f"/flows/{f.id}", headers, body)
                 except (asyncio.TimeoutError, ValueError, ConnectionError) as e:
@@ -303,7 +381,7 @@ async def amain(ctx):
             wit = {
                 "flow": kind,
                 "already_modified": modified,
-                "doc": doc,
+                "body": short(body_text, 900),
                 "status": resp.status,
                 "answer": short(resp.body, 160),
                 "first_invalid_item": None if idx is None else list(flat[idx]),
@@ -345,7 +423,7 @@ async def amain(ctx):
             ctx.case(
                 (kind, modified, all_classes, min(n_before, 2), resp.status // 100),
                 nontrivial=nontrivial,
-                sample={"flow": kind, "already_modified": modified, "doc": doc, "status": resp.status},
+                sample={"flow": kind, "already_modified": modified, "body": short(body_text, 500), "status": resp.status},
             )
     finally:
         await rig.stop()
